@@ -40,7 +40,7 @@ var BoundaryInts = []int64{0, 1, -1, 2, 5, 7, 10, 42, 100, 127, 128, -128, -129,
 
 var BoundaryFloats = []float64{0, 1, -1, 0.5, 0.1, 1.5, -2.25, 3.14, 1e10, 1e-10, 16777216, 16777217, math.MaxFloat32, math.SmallestNonzeroFloat32, math.MaxFloat64, math.SmallestNonzeroFloat64, 1e100, 123456.789, 0.30000000000000004}
 
-var BoundaryStrings = []string{"", "a", "b", "foo", "Foo", "FOO", "bar", "true", "false", "1", "0", "-1", "1.0", "1.5", " x", "x ", "é", "日本", "/a/b", "a b", "a.b", "web", "web-01", "primary", "null", "nil", "0x10", "1e3", "a\"b", "tab\t", "^a", "(", "x\x00y"}
+var BoundaryStrings = []string{"", "a", "b", "foo", "Foo", "FOO", "bar", "true", "false", "1", "0", "-1", "1.0", "1.5", " x", "x ", "é", "日本", "/a/b", "a b", "a.b", "web", "web-01", "primary", "null", "nil", "0x10", "1e3", "a\"b", "tab\t", "^a", "(", "x\x00y", "host.eu west", "v1.2", "cfg.a.b", "srv.(", "a\ufffdb"}
 
 var KeyPool = []string{"a", "b", "c", "d", "name", "port", "tags", "meta", "x1", "Foo", "id", "k", "v", "item", "labels", "zone", "n", "list", "m", "s"}
 var OddKeys = []string{" a", "A", "a.b", "a/b", "~", "~1", "0", "1", "", "x y", "é", "a-b", "k:v", "not", "in", "007", "-"}
